@@ -1054,6 +1054,14 @@ func genRace(r rng, seed uint64, id string) *sdl.Program {
 		if ti > 0 && r.p(0.6) {
 			t.Points = append(t.Points, &sdl.Point{Field: "F0", Kind: sdl.KIfaces, Iface: 0, Sel: sdl.SelType, Optional: true})
 		}
+		if ti > 0 {
+			// several types carry one and the same argument-bearing tag text (no explicit `required`):
+			// whatever the scanners derive from a tag text belongs to the one field it was read from
+			t.Qual = true
+			if r.p(0.7) {
+				t.Points = append(t.Points, &sdl.Point{Field: "FQ", Kind: sdl.KIfaces, Iface: 0, Sel: sdl.SelType, Quals: []string{"q0"}})
+			}
+		}
 		for fi := 0; fi < r.n(0, 2); fi++ {
 			t.Custom = append(t.Custom, &sdl.Custom{Field: fmt.Sprintf("X%d", fi), Tag: pick(r, customTags), Val: "v", Exported: true})
 		}
@@ -1063,7 +1071,7 @@ func genRace(r rng, seed uint64, id string) *sdl.Program {
 			cnt = 1
 		}
 		for j := 0; j < cnt; j++ {
-			p.Instances = append(p.Instances, &sdl.Instance{ID: fmt.Sprintf("c%d", ni), Type: t.Name, Alias: fmt.Sprintf("r%d", ni)})
+			p.Instances = append(p.Instances, &sdl.Instance{ID: fmt.Sprintf("c%d", ni), Type: t.Name, Alias: fmt.Sprintf("r%d", ni), Qual: "q0"})
 			ni++
 		}
 	}
